@@ -120,6 +120,33 @@ def main(ctx, replay=None):
                           {"shapes": shapes}, {"clause": "sort_mismatch"})
         except Exception:
             pass
+    # the refusals do not depend on the interpreter's optimisation flag (python -O strips assert statements and __debug__ blocks)
+    import json
+    import os
+    import subprocess
+    import sys
+    import tempfile
+    from cv.core import REPO
+    payload = [[b[0], numpy.asarray(b[1]).tolist(), numpy.asarray(b[2]).tolist()] for b in bads]
+    with tempfile.NamedTemporaryFile("w", suffix=".json", prefix="cijverif.c20.", delete=False) as fp:
+        json.dump(payload, fp)
+    prog = ("import json, sys\nfrom cij.misc import evec_sort\nacc = []\n"
+            "for n, b in enumerate(json.load(open(sys.argv[1]))):\n"
+            "    try:\n        evec_sort(*b); acc.append(n)\n    except Exception: pass\n"
+            "print(json.dumps(acc))\n")
+    env = dict(os.environ, PYTHONPATH=str(REPO) + os.pathsep + os.environ.get("PYTHONPATH", ""))
+    try:
+        pr = subprocess.run([sys.executable, "-O", "-c", prog, fp.name], capture_output=True, text=True, timeout=600, env=env)
+    finally:
+        os.unlink(fp.name)
+    if pr.returncode != 0:
+        raise MachineryError(f"python -O replay of the dimension mismatches failed: {pr.stderr[-400:]}")
+    for n in json.loads(pr.stdout.strip().splitlines()[-1])[:5]:
+        b = bads[n]
+        shapes = [len(b[0]), list(numpy.shape(b[1])), list(numpy.shape(b[2]))]
+        ctx.violation(f"under `python -O` evec_sort accepts mismatching dimensions: {shapes[0]} items with vector sets of shapes {shapes[1]} and {shapes[2]}",
+                      {"shapes": shapes}, {"clause": "sort_mismatch", "python_O": True})
+    ctx.cov["evaluations"] += len(bads)
     disp2eig(ctx, rng, evec_disp2eig)
     load(ctx, rng, evec_load, eig)
 
